@@ -137,6 +137,10 @@ def check(run, ctx):
             asg = [n for n in ast.walk(f.node) if isinstance(n, ast.Assign) and any(isinstance(t, ast.Name) and t.id == msg.id for t in n.targets)]
             src = asg[0].value if asg else msg
         msg_names = {n.id for n in ast.walk(src) if isinstance(n, ast.Name)}
+        # one level of local renderings: number = _format_number(value)
+        for n in ast.walk(f.node):
+            if isinstance(n, ast.Assign) and any(isinstance(t, ast.Name) and t.id in msg_names for t in n.targets):
+                msg_names |= {x.id for x in ast.walk(n.value) if isinstance(x, ast.Name)}
         if isinstance(line, ast.Name) and line.id == "line" and "value" in msg_names:
             run.ok(M4, b, "line=line, message interpolates value")
         else:
